@@ -815,7 +815,7 @@ def op_universe(key, n, valid_only=False, names=None, slim=False):
     """every operation tried from the (canonical) state `key` on n objects (slim: member sequences of
     length <= 2 and no failing hooks -- used for the second pass in which all objects carry one name)"""
     names = names or BFS_NAMES
-    valid_only_or_slim = valid_only or slim
+    valid_only_or_slim = slim      # failing hooks are part of the C20 universe too (they are no check)
     sh = Shadow(par=key[0], kid=key[1])
     seqs = [list(s) for k in range(0, 3 if slim else 4) for s in itertools.product(range(n), repeat=k)]
     out = []
@@ -943,6 +943,18 @@ def enumerate_cases(n, valid_only=False, same_names=False):
 # ---------------------------------------------------------------------------------------------
 
 
+def _strip(op):
+    """the same call with hooks that do not raise"""
+    o = list(op)
+    if o[0] in ("SetParents", "SetKids"):
+        o[4] = "none"
+    elif o[0] in ("RShift", "LShift"):
+        o[3] = "none"
+    elif o[0] == "New":
+        o[4] = o[5] = "none"
+    return o
+
+
 def corpus(prop):
     N = _N
     faulty = prop != "C20"
@@ -992,11 +1004,11 @@ def corpus(prop):
     ]
     res = []
     for label, c in out:
-        if not faulty:
+        if not faulty:      # C20: keep failing hooks, drop what the checks refuse
             sh, nm, ops = Shadow(c["n"]), list(c["names"]), []
             for o in c["ops"]:
                 probe = Shadow(par=sh.par, kid=sh.kid)
-                if shadow_apply(probe, list(nm), o):
+                if shadow_apply(probe, list(nm), _strip(o)):
                     ops.append(o)
                     shadow_apply(sh, nm, o)
             c = dict(c, ops=ops)
@@ -1011,7 +1023,7 @@ def generate(prop, rng, tier):
     count = {"quick": 1500, "thorough": 15000, "search": 4500}[tier]
     if prop == "C20":          # two traces and two interpreters per case
         count = count // 2
-    fr = {"C10": 0.08, "C02": 0.4, "C20": 0.0}[prop]
+    fr = {"C10": 0.08, "C02": 0.4, "C20": 0.15}[prop]     # C20: failing user hooks yes, check-refused ops no
     ir = {"C10": 0.22, "C02": 0.25, "C20": 0.0}[prop]
     if tier == "thorough":
         for n in (1, 2, 3, 4):
@@ -1085,7 +1097,7 @@ def sample(prop, case, obs):
 
 def rule(prop):
     extra = {"C10": "", "C02": " (C02: additionally >= 1 rejected/failing op; ~40 % of the assignments carry a failing hook)",
-             "C20": " (C20: valid ops only, no faults; every history is run in-process with the checks on and in a child "
+             "C20": " (C20: no op that the checks refuse, ~15 % of the assignments with a failing pre/post hook; every history is run in-process with the checks on and in a child "
                     "interpreter started with BIGTREE_CONF_ASSERTIONS=\"\"; besides the per-step links a battery of read-only "
                     "calls on the final DAG -- ancestors, descendants, siblings, is_root/is_leaf, attributes, go_to incl. n.go_to(n), "
                     "dag_iterator, dag_to_list/dict/dataframe, copy(), iteration/containment -- is compared between the two "
